@@ -525,8 +525,9 @@ static size_t safec_ftoa(out_fct_type out, const char *funcname, char *buffer,
         }
     }
 
-    // strip leading zeros and dots
-    if ((flags & FLAGS_ADAPT_EXP) && !(flags & FLAGS_HASH)) {
+    // strip leading zeros and dots (without a fraction the zeros are digits of
+    // the whole part)
+    if ((flags & FLAGS_ADAPT_EXP) && !(flags & FLAGS_HASH) && prec > 0U) {
         size_t olen = len;
         while (buf[off] == '0') {
             off++;
@@ -749,27 +750,55 @@ static size_t safec_etoa(out_fct_type out, const char *funcname, char *buffer,
     // determine the decimal exponent
     // based on the algorithm by David Gay
     // (https://www.ampl.com/netlib/fp/dtoa.c)
-    conv.F = value;
-    exp2 = (int)((conv.U >> 52U) & 0x07FFU) - 1023; // effectively log2
-    conv.U = (conv.U & ((1ULL << 52U) - 1U)) |
-             (1023ULL << 52U); // drop the exponent so conv.F is now in [1,2)
-    // now approximate log10 from the log2 integer part and an expansion of ln
-    // around 1.5
-    expval = (int)(0.1760912590558 + exp2 * 0.301029995663981 +
-                   (conv.F - 1.5) * 0.289529654602168);
-    // now we want to compute 10^expval but we want to be sure it won't overflow
-    exp2 = (int)(expval * 3.321928094887362 + 0.5);
-    {
-        const double z = expval * 2.302585092994046 - exp2 * 0.6931471805599453;
-        const double z2 = z * z;
-        conv.U = (uint64_t)(exp2 + 1023) << 52U;
-        // compute exp(z) using continued fractions, see
-        // https://en.wikipedia.org/wiki/Exponential_function#Continued_fractions_for_ex
-        conv.F *= 1 + 2 * z / (2 - z + (z2 / (6 + (z2 / (10 + z2 / 14)))));
-        // correct for rounding errors
-        if (value < conv.F) {
-            expval--;
-            conv.F /= 10;
+    expval = 0;
+    conv.F = 1.0;
+    if (value != 0.0) { // zero has exponent 0, not the -308 of its bit pattern
+        conv.F = value;
+        exp2 = (int)((conv.U >> 52U) & 0x07FFU) - 1023; // effectively log2
+        conv.U = (conv.U & ((1ULL << 52U) - 1U)) |
+                 (1023ULL << 52U); // drop the exponent so conv.F is now in [1,2)
+        // now approximate log10 from the log2 integer part and an expansion of
+        // ln around 1.5
+        expval = (int)(0.1760912590558 + exp2 * 0.301029995663981 +
+                       (conv.F - 1.5) * 0.289529654602168);
+        // now we want to compute 10^expval but we want to be sure it won't
+        // overflow
+        exp2 = (int)(expval * 3.321928094887362 + 0.5);
+        {
+            const double z =
+                expval * 2.302585092994046 - exp2 * 0.6931471805599453;
+            const double z2 = z * z;
+            conv.U = (uint64_t)(exp2 + 1023) << 52U;
+            // compute exp(z) using continued fractions, see
+            // https://en.wikipedia.org/wiki/Exponential_function#Continued_fractions_for_ex
+            conv.F *= 1 + 2 * z / (2 - z + (z2 / (6 + (z2 / (10 + z2 / 14)))));
+        }
+        // conv.F is only an approximation of 10^expval: make sure that the
+        // scaled value has exactly one digit in front of the point, also
+        // after it has been rounded to the digits that will be printed
+        {
+            unsigned int digits =
+                (flags & FLAGS_PRECISION) ? prec : PRINTF_DEFAULT_FLOAT_PRECISION;
+            double scaled = value / conv.F;
+            double half = 0.5;
+            if ((flags & FLAGS_ADAPT_EXP) && digits > 0)
+                --digits; // significant figures, one is in front of the point
+            while (scaled >= 10.0) {
+                scaled /= 10.0;
+                conv.F *= 10.0;
+                expval++;
+            }
+            while (scaled < 1.0) {
+                scaled *= 10.0;
+                conv.F /= 10.0;
+                expval--;
+            }
+            while (digits-- > 0 && half > 1e-17)
+                half /= 10.0;
+            if (scaled + half >= 10.0) {
+                conv.F *= 10.0;
+                expval++;
+            }
         }
     }
 
@@ -779,22 +808,19 @@ static size_t safec_etoa(out_fct_type out, const char *funcname, char *buffer,
 
     // in "%g" mode, "prec" is the number of *significant figures* not decimals
     if (flags & FLAGS_ADAPT_EXP) {
-        // do we want to fall-back to "%f" mode?
-        if ((flags & FLAGS_HASH) || ((value >= 1e-4) && (value < 1e6))) {
-            if ((int)prec > expval) {
-                prec = (unsigned)((int)prec - expval - 1);
-            } else {
-                prec = 0;
-            }
+        // C: with P the precision (6 if missing, 1 if zero) and X the decimal
+        // exponent, use the %f style with precision P-1-X if P > X >= -4
+        const int P = (int)prec > 0 ? (int)prec : 1;
+        if (expval >= -4 && expval < P) {
+            prec = (unsigned)(P - 1 - expval);
             flags |= FLAGS_PRECISION; // make sure safec_ftoa respects precision
             // no characters in exponent
             minwidth = 0U;
             expval = 0;
         } else {
             // we use one sigfig for the whole part
-            if ((prec > 0) && (flags & FLAGS_PRECISION)) {
-                --prec;
-            }
+            prec = (unsigned)(P - 1);
+            flags |= FLAGS_PRECISION;
         }
     }
 
